@@ -24,6 +24,7 @@ def cubes(tier):
         out += _split(dict(link="symlink", delete=True, form="explicit"), [(2, 1), (1, 2)])
         out += _split(dict(link="copy", delete=True, form="explicit", unavail=True), [(0, 2), (2, 1)])
         out += _split(dict(link="copy", delete=True, form="lazy", oldhash=False), [(2, 2), (1, 2)])
+        out += _split(dict(link="copy", delete=True, form="lazy", deep=True), [(0, 2), (2, 2)])
         out += _split(dict(link="copy", delete=True, form="explicit", oldhash=False), [(2, 1), (1, 2)])
         return out
     out = []
@@ -34,6 +35,8 @@ def cubes(tier):
     out += _split(dict(link="copy", delete=True, form="explicit", unavail=True), ALL)
     out += _split(dict(link="copy", delete=False, form="explicit", unavail=True), ALL)
     out += _split(dict(link="copy", delete=True, form="lazy", unavail=True), [(k, 2) for k in range(3)])
+    out += _split(dict(link="copy", delete=True, form="lazy", deep=True), [(k, 2) for k in range(3)])
+    out += _split(dict(link="copy", delete=True, form="explicit", deep=True), [(k, 2) for k in range(3)])
     for form in ("explicit", "lazy"):
         for delete in (True, False):
             out += _split(dict(link="copy", delete=delete, form=form, oldhash=False), ALL if form == "explicit" else [(k, 2) for k in range(3)])
